@@ -25,6 +25,8 @@ type EffectCfg struct {
 	CheckMapOrder    bool                `json:"check_map_order"`
 	CheckSpawn       bool                `json:"check_spawn"`
 	IgnorePackages   []string            `json:"ignore_packages"` // module packages not descended into (assumed), e.g. the generated parser
+	CheckShared      bool                `json:"check_shared"`    // values reached through package-level variables are only read (no store, append, update, escape, mutating call)
+	SharedPureCalls  []string            `json:"shared_pure_calls"` // external functions (full names or prefixes ending in ".") that only read their arguments and are safe for concurrent use
 }
 
 type effectVerdict struct {
@@ -166,6 +168,16 @@ func runEffects(env *Env, cfg *EffectCfg) ([]effectVerdict, map[string]any) {
 			}
 		}
 	}
+	if cfg.CheckShared {
+		var fl []*ssa.Function
+		for f := range reach {
+			fl = append(fl, f)
+		}
+		sort.Slice(fl, func(i, j int) bool { return funcKey(fl[i]) < funcKey(fl[j]) })
+		for _, f := range fl {
+			out = append(out, sharedVerdicts(env, cfg, f)...)
+		}
+	}
 	var fns []string
 	for f := range reach {
 		fns = append(fns, funcKey(f))
@@ -262,4 +274,204 @@ func loadedFromGlobal(v ssa.Value) *ssa.Global {
 
 func isModuleGlobal(g *ssa.Global) bool {
 	return g.Pkg != nil && strings.HasPrefix(g.Pkg.Pkg.Path(), modulePath) && g.Name() != "init$guard"
+}
+
+// ---- shared state reached through package-level variables -------------------------------------------
+//
+// Distinct runners can only share memory that is reachable from package-level variables (everything
+// else a runner touches is reachable from its own fields or from its caller's arguments). sharedVerdicts
+// follows, inside one function, every value loaded from a module package-level variable and requires
+// that it is only read: indexing, field access, map lookup, range, len/cap, comparison, calling it (a
+// function value), or passing it to an external function listed as read-only and safe for concurrent
+// use. Storing through it, appending to it, updating it, sending it, returning it, storing it anywhere,
+// capturing it or passing it to any other function is reported.
+
+func refLike(t types.Type) bool {
+	switch u := t.Underlying().(type) {
+	case *types.Pointer, *types.Slice, *types.Map, *types.Chan, *types.Interface:
+		return true
+	case *types.Struct:
+		for i := 0; i < u.NumFields(); i++ {
+			if refLike(u.Field(i).Type()) {
+				return true
+			}
+		}
+	case *types.Array:
+		return refLike(u.Elem())
+	}
+	return false
+}
+
+func sharedVerdicts(env *Env, cfg *EffectCfg, f *ssa.Function) []effectVerdict {
+	var out []effectVerdict
+	key := funcKey(f)
+	if f.Name() == "init" || strings.HasPrefix(f.Name(), "init#") || inList(cfg.AllowGlobalWrite, key) {
+		return nil
+	}
+	taint := map[ssa.Value]*ssa.Global{}
+	src := func(v ssa.Value) *ssa.Global {
+		if g, ok := v.(*ssa.Global); ok && isModuleGlobal(g) {
+			return g
+		}
+		return taint[v]
+	}
+	// propagate to a fixpoint (phis)
+	for changed := true; changed; {
+		changed = false
+		mark := func(v ssa.Value, g *ssa.Global) {
+			if g != nil && taint[v] == nil {
+				taint[v] = g
+				changed = true
+			}
+		}
+		for _, b := range f.Blocks {
+			for _, in := range b.Instrs {
+				switch x := in.(type) {
+				case *ssa.UnOp:
+					if x.Op == token.MUL && refLike(x.Type()) {
+						mark(x, src(x.X))
+					}
+				case *ssa.FieldAddr:
+					mark(x, src(x.X))
+				case *ssa.IndexAddr:
+					mark(x, src(x.X))
+				case *ssa.Field:
+					if refLike(x.Type()) {
+						mark(x, src(x.X))
+					}
+				case *ssa.Index:
+					if refLike(x.Type()) {
+						mark(x, src(x.X))
+					}
+				case *ssa.Lookup:
+					if refLike(x.Type()) {
+						mark(x, src(x.X))
+					}
+				case *ssa.Slice:
+					mark(x, src(x.X))
+				case *ssa.ChangeType:
+					mark(x, src(x.X))
+				case *ssa.ChangeInterface:
+					mark(x, src(x.X))
+				case *ssa.Convert:
+					if refLike(x.Type()) {
+						mark(x, src(x.X))
+					}
+				case *ssa.MakeInterface:
+					if refLike(x.X.Type()) {
+						mark(x, src(x.X))
+					}
+				case *ssa.TypeAssert:
+					if refLike(x.Type()) {
+						mark(x, src(x.X))
+					}
+				case *ssa.Extract:
+					if refLike(x.Type()) {
+						mark(x, src(x.Tuple))
+					}
+				case *ssa.Phi:
+					for _, e := range x.Edges {
+						mark(x, src(e))
+					}
+				}
+			}
+		}
+	}
+	report := func(pos token.Pos, g *ssa.Global, what string) {
+		p := env.position(pos)
+		out = append(out, effectVerdict{name: fmt.Sprintf("%s#effect:shared-state:%s@%s", key, g.Name(), p), ok: false,
+			why: "package-level variable " + g.Pkg.Pkg.Name() + "." + g.Name() + " (shared by all runners) " + what, pos: p})
+	}
+	pureCall := func(name string) bool {
+		for _, pc := range cfg.SharedPureCalls {
+			if name == pc || (strings.HasSuffix(pc, ".") && strings.HasPrefix(name, pc)) {
+				return true
+			}
+		}
+		return false
+	}
+	nReads := 0
+	for _, b := range f.Blocks {
+		for _, in := range b.Instrs {
+			switch x := in.(type) {
+			case *ssa.Store:
+				if g := src(x.Addr); g != nil {
+					if _, direct := x.Addr.(*ssa.Global); !direct { // direct writes are global-write verdicts
+						report(x.Pos(), g, "is written through")
+					}
+				}
+				if g := taint[x.Val]; g != nil {
+					report(x.Pos(), g, "is stored into another location (escapes)")
+				}
+			case *ssa.MapUpdate:
+				if g := taint[x.Map]; g != nil {
+					report(x.Pos(), g, "is updated (map assignment)")
+				}
+				if g := taint[x.Value]; g != nil {
+					report(x.Pos(), g, "is stored into a map (escapes)")
+				}
+			case *ssa.Send:
+				if g := taint[x.X]; g != nil {
+					report(x.Pos(), g, "is sent on a channel (escapes)")
+				}
+				if g := taint[x.Chan]; g != nil {
+					report(x.Pos(), g, "is a channel shared by all runners")
+				}
+			case *ssa.Return:
+				for _, r := range x.Results {
+					if g := taint[r]; g != nil {
+						report(x.Pos(), g, "is returned (escapes)")
+					}
+				}
+			case *ssa.MakeClosure:
+				for _, bnd := range x.Bindings {
+					if g := taint[bnd]; g != nil {
+						report(x.Pos(), g, "is captured by a closure (escapes)")
+					}
+				}
+			case ssa.CallInstruction:
+				c := x.Common()
+				var args []ssa.Value
+				name := ""
+				if c.IsInvoke() {
+					args = append(args, c.Value)
+					name = "(" + c.Value.Type().String() + ")." + c.Method.Name()
+				} else {
+					switch fv := c.Value.(type) {
+					case *ssa.Builtin:
+						name = "builtin." + fv.Name()
+					case *ssa.Function:
+						if isModuleFn(fv) {
+							name = "module:" + funcKey(fv)
+						} else {
+							name = extName(fv)
+						}
+					default:
+						name = "func-value"
+					}
+				}
+				args = append(args, c.Args...)
+				for _, a := range args {
+					g := taint[a]
+					if g == nil {
+						continue
+					}
+					nReads++
+					switch {
+					case name == "builtin.len" || name == "builtin.cap":
+					case name == "builtin.append" || name == "builtin.copy" || name == "builtin.delete" || name == "builtin.clear" || name == "builtin.close":
+						report(x.Pos(), g, "is passed to "+strings.TrimPrefix(name, "builtin.")+" (mutated)")
+					case pureCall(name):
+					default:
+						report(x.Pos(), g, "is passed to "+name+", which is not listed as read-only and safe for concurrent use")
+					}
+				}
+			}
+		}
+	}
+	if len(out) == 0 && len(taint) > 0 {
+		p := env.position(f.Pos())
+		out = append(out, effectVerdict{name: fmt.Sprintf("%s#effect:shared-state-read-only", key), ok: true, why: "values reached through package-level variables are only read", pos: p})
+	}
+	return out
 }
